@@ -1,4 +1,5 @@
 import JT.Proof.GoAttach
+import JT.Proof.GoModelBcd
 /-!
 # C10 / C15 — the chunk-header parsers of the attachment server as they stand in the source
 
@@ -28,5 +29,21 @@ theorem source_guarded_parse_total (fuel : Nat) (d : Bytes) :
       ∃ r, attachment_heiBiaoStreamDataHandle_Parse fuel h d = .ok r) :=
   ⟨fun s s' hg => (X.isOk_iff _).mp (base_parse_guarded fuel s s' d hg),
    fun h h' h'' hg => (X.isOk_iff _).mp (hlj_parse_guarded fuel h h' h'' d hg)⟩
+
+/-- **The attachment announcement 0x1210 — the first frame of every upload connection — is decoded without a panic**
+(`T0x1210.Parse` as translated from protocol/model on every run, with the alarm-sign block parser, `BCD2Time` and the
+attachment-list loop): for every body, every dialect the receiver is configured for (identifier 7 or 30 bytes, alarm sign
+16…40 bytes) and every attachment count byte, the method returns a result or an error. Every round of the list loop
+checks its own bounds, so the count byte cannot drive an access outside the body (the D F16 defect, and the change
+mut-C03e-2, are exactly the absence of that check). -/
+theorem source_1210_total (fuel : Nat) (t : Gen.GoModel.model_T0x1210) (j : Gen.GoFrame.jt808_JTMessage)
+    (hf : j.Body.length + 256 < fuel) : ∃ r, Gen.GoModel.model_T0x1210_Parse fuel t j = .ok r :=
+  (X.isOk_iff _).mp (Gen.GoModel.T0x1210_Parse_total fuel t j hf)
+
+/-- the alarm-sign block (shared by 0x1210, 0x9208 and the vendor extensions 0x64…0x70) is parsed without a panic for
+every block and every dialect -/
+theorem source_alarm_sign_total (fuel : Nat) (p : Gen.GoModel.model_P9208AlarmSign) (d : Bytes) (h : d.length < fuel) :
+    ∃ r, Gen.GoModel.model_P9208AlarmSign_parse fuel p d = .ok r :=
+  (X.isOk_iff _).mp (Gen.GoModel.AlarmSign_parse_total fuel p d h)
 
 end JT.C10
